@@ -1060,7 +1060,12 @@ func runCase(c *c15Case) (encoded []byte) {
 		}
 		if c.WidPrefix == "" { // the plug-in is built with the standard work-id generator
 			if ok, why := validatorAgrees(b, err); !ok {
-				c.Observed.Code, c.Observed.Same, c.Observed.ErrText = 96, false, why
+				// judged as the plug-in's answer: accepted (code 0) where the decoder refused, refused (96) where it accepted
+				code := 96
+				if err != nil {
+					code = 0
+				}
+				c.Observed.Code, c.Observed.Same, c.Observed.ErrText = code, false, why
 			}
 		}
 	} else {
